@@ -229,6 +229,10 @@ type Prop struct {
 	Replay func(c *Ctx, cas json.RawMessage)
 	// Post runs in the orchestrator after merging (e.g. an external model checker).
 	Post func(tier string, merged *Result) error
+	// Par is the number of worker processes run concurrently (default 4).
+	Par int
+	// NoThreads: the check uses process-global hooks and must run one shard per process.
+	NoThreads bool
 }
 
 var registry = map[string]*Prop{}
@@ -282,10 +286,36 @@ func WorkerMain(args []string) int {
 		if p.Budget != nil {
 			budget = p.Budget(args[1])
 		}
-		c = NewCtx(args[1], shard, n, seed, budget)
-		os.MkdirAll(c.Scratch, 0755)
-		defer os.RemoveAll(c.Scratch)
-		p.Run(c)
+		threads, _ := strconv.Atoi(os.Getenv("VERIF_THREADS"))
+		if threads <= 1 || p.NoThreads {
+			c = NewCtx(args[1], shard, n, seed, budget)
+			os.MkdirAll(c.Scratch, 0755)
+			defer os.RemoveAll(c.Scratch)
+			p.Run(c)
+		} else {
+			// several sub-shards as goroutines of one process (one heap, one GC)
+			subs := make([]*Ctx, threads)
+			var wg sync.WaitGroup
+			for t := 0; t < threads; t++ {
+				subs[t] = NewCtx(args[1], shard*threads+t, n*threads, seed, budget)
+				subs[t].Scratch = filepath.Join(subs[t].Scratch, fmt.Sprintf("t%d", t))
+				os.MkdirAll(subs[t].Scratch, 0755)
+				wg.Add(1)
+				go func(sc *Ctx) {
+					defer wg.Done()
+					p.Run(sc)
+				}(subs[t])
+			}
+			wg.Wait()
+			c = NewCtx(args[1], shard, n, seed, budget)
+			defer os.RemoveAll(c.Scratch)
+			st, oc, nt := map[uint64]struct{}{}, map[uint64]struct{}{}, map[uint64]struct{}{}
+			for _, sc := range subs {
+				sc.finish()
+				merge(c.R, sc.R, st, oc, nt)
+			}
+			c.states, c.outcomes, c.nontriv = st, oc, nt
+		}
 	}
 	c.finish()
 	b, _ := json.Marshal(c.R)
@@ -328,7 +358,7 @@ func runWorker(self string, args []string, timeout time.Duration, logPath string
 		defer lf.Close()
 		cmd.Stderr = lf
 	}
-	cmd.Env = append(os.Environ(), "GOMAXPROCS="+envOr("VERIF_WORKER_GOMAXPROCS", "4"))
+	cmd.Env = append(os.Environ(), "GOMAXPROCS="+envOr("VERIF_WORKER_GOMAXPROCS", "2"))
 	if err := cmd.Start(); err != nil {
 		return nil, err
 	}
@@ -432,7 +462,14 @@ func CheckMain(self, id, tier string) int {
 	if p.Budget != nil {
 		budget = p.Budget(tier)
 	}
-	par := 16
+	// Measured on the build sandbox: database-driving workers are dominated by
+	// page faults, thread wake-ups and small file operations, which do not scale
+	// there beyond ~4 concurrent processes (16 is slower than 4); pure-CPU checks
+	// set Par themselves.
+	par := 4
+	if p.Par > 0 {
+		par = p.Par
+	}
 	if v, err := strconv.Atoi(os.Getenv("VERIF_PAR")); err == nil && v > 0 {
 		par = v
 	}
